@@ -4,6 +4,8 @@
 -/
 import AttrsModel.Proofs.C04Run
 import AttrsModel.Proofs.C04Witness
+import AttrsModel.Proofs.C04Script
+import AttrsModel.Spec.C04Script
 
 namespace Attrs.C04
 
@@ -228,6 +230,62 @@ theorem C04_never_raises_other (c : Case) (L : Layout) (insts : List Inst) (i : 
     (hashOp c L insts i alt).1.out = .ok := by
   have hx : insts[i]? = some (insts[i]'hi) := List.getElem?_eq_getElem hi
   rcases h with h | h <;> simp [hashOp, hx, hashCall, h]
+
+/-! ## T3: the generated `__hash__` text -/
+
+/-- **C04_script_correct**: for every class (any field list — any length, any per-field eq/hash setting —
+    frozen or not, caching or not), every layout in which that class's `__hash__` is the one that resolves, and
+    every instance state (any field values, any cache cell: absent, None or populated), executing the script the
+    model generator emits for the class *is* the model's `hash` call: same outcome, same hash inputs, same
+    "computed" flag, same new instance state.  So where the parsed real source of a class equals `genHashOf`
+    (checked per class by the `script` cases), every theorem above about `hashCall` is about the text that runs. -/
+theorem C04_script_correct (c : Case) (L : Layout) (n : Node) (idx : Nat) (x : Inst)
+    (hg : L.hres = .gen n) (hl : n.fields.length ≤ x.vals.length) :
+    IR.execScript c L (n.k + 2) (IR.genHashOf n) x = hashCall c L idx x := by
+  have hev := IR.evalOperands_genHash c n x.vals hl
+  unfold hashCall IR.genHashOf IR.genHash IR.execScript
+  simp only [hg]
+  by_cases hc : n.facts.cacheOn = true
+  · simp only [hc, if_true, Bool.not_true, Bool.false_eq_true, if_false, IR.execStmts, IR.readNamed,
+      beq_self_eq_true]
+    cases hcell : readCell L x with
+    | absent => simp
+    | full h => simp
+    | empty => simp [hev, readCell_writeCell]
+  · simp [hc, IR.execStmts, hev]
+
+/-- the operand tuple alone: salt, then the hash codes of the participating (keyed) values, in field order -/
+theorem C04_script_operands (c : Case) (n : Node) (vals : List Nat) (hl : n.fields.length ≤ vals.length) :
+    IR.evalOperands c (n.k + 2) vals (IR.Operand.salt :: IR.genOperands 0 n.fields) = .ok (fresh c n vals) :=
+  IR.evalOperands_genHash c n vals hl
+
+/-- non-vacuity: the script of a frozen caching class with a plain, a keyed and a non-participating field; run
+    on a fresh instance it computes, stores and returns the hash inputs `[salt, vh 1, vh (key 2)]`, and a second
+    run returns them without computing -/
+example :
+    let fs : List Field := [{ name := "a", eq := .t, hash := none }, { name := "b", eq := .key, hash := some true },
+                            { name := "c", eq := .f, hash := none }]
+    let s := IR.genHash fs true true
+    let c : Case := { witnessOk with keyMap := [0, 0, 1] }
+    let L : Layout := { (default : Layout) with hasSlot := true }
+    let x : Inst := { vals := [1, 2, 0], slot := .empty, dict := .absent }
+    s = { params := .cached true,
+          body := [.fillCache "_attrs_cached_hash" .objSetattr
+                     { wrapped := true, operands := [.salt, .field 0, .keyed 1 .own 1] },
+                   .retCache "_attrs_cached_hash"],
+          builtinsOk := true } ∧
+    (IR.execScript c L 2 s x).1 = .ok ∧ (IR.execScript c L 2 s x).2.1 = [2, 1, 1] ∧
+    (IR.execScript c L 2 s x).2.2.1 = true ∧
+    (IR.execScript c L 2 s (IR.execScript c L 2 s x).2.2.2).2.2.1 = false ∧
+    (IR.execScript c L 2 s (IR.execScript c L 2 s x).2.2.2).2.1 = [2, 1, 1] := by decide
+
+/-- non-vacuity of the script check: on the healthy caching class the model's own scripts meet the script
+    specification, and a script that reads the wrong field does not -/
+example : Script.wf { witnessOk with ops := [] , insts := [] } = true ∧
+    Script.spec { witnessOk with ops := [], insts := [] } (Script.model { witnessOk with ops := [], insts := [] }) = true ∧
+    Script.spec { witnessOk with ops := [], insts := [] }
+      { script := some { params := .plain, body := [.retHash { wrapped := false, operands := [.salt] }], builtinsOk := true },
+        twin := some (IR.genHash [fa] false false) } = false := by decide
 
 /-! ## Known deviations of the pinned tree: witnesses -/
 
